@@ -17,12 +17,14 @@ each statement kind its meaning over an abstract file system and an abstract obj
 * `newBuf`     – `content = six.StringIO()`: a fresh memory buffer;
 * `buildMem`   – `self.build_file(parser, content)`: the same encoder, into the memory buffer: may fail, touches no file;
 * `writeBuf`   – `f.write(content.getvalue())`: writes the already built text to the opened destination;
+* `unlink`     – `os.unlink` / `os.remove` / `os.rename` / `os.replace` / `shutil.*` reaching the destination: what was
+                 at the path is gone from it (modelled in the worst case: unconditionally);
 * `unknown`    – any statement outside the idiom: may raise (assumed not to touch the file system).
 -/
 namespace PM
 
 inductive Eff where
-  | validate | openW | getParser | serialize | buildFile | newBuf | buildMem | writeBuf | unknown
+  | validate | openW | getParser | serialize | buildFile | newBuf | buildMem | writeBuf | unlink | unknown
 deriving DecidableEq, Repr, Inhabited
 
 namespace Eff
@@ -30,19 +32,25 @@ namespace Eff
 def name : Eff → String
   | validate => "validate" | openW => "openW" | getParser => "getParser"
   | serialize => "serialize" | buildFile => "buildFile" | newBuf => "newBuf" | buildMem => "buildMem"
-  | writeBuf => "writeBuf" | unknown => "unknown"
+  | writeBuf => "writeBuf" | unlink => "unlink" | unknown => "unknown"
 
 def ofName : String → Eff
   | "validate" => validate | "openW" => openW | "getParser" => getParser
   | "serialize" => serialize | "buildFile" => buildFile | "newBuf" => newBuf | "buildMem" => buildMem
-  | "writeBuf" => writeBuf | _ => unknown
+  | "writeBuf" => writeBuf | "unlink" => unlink | _ => unknown
 
 /-- statements that run code of the object and can therefore refuse it: validators, section writers, the encoder
 (`build_file`, wherever it writes to), anything unrecognised.  `openW` (I/O error: nothing is created then), `newBuf`
 and `writeBuf` (a plain write of a string that already exists) are not. -/
 def fallible : Eff → Bool
   | validate | getParser | serialize | unknown | buildMem | buildFile => true
-  | openW | newBuf | writeBuf => false
+  | openW | newBuf | writeBuf | unlink => false
+
+/-- statements that destroy what is at the destination as soon as they run: the open for writing (truncates) and any
+removal / renaming of the destination -/
+def destructive : Eff → Bool
+  | openW | unlink => true
+  | _ => false
 
 end Eff
 
@@ -114,6 +122,7 @@ def step (o : DumpObj) (path : Path) (st : DumpSt) : Eff → DumpSt × Except Fa
         | none => ({ st with fs := st.fs.write path (cur ++ t) }, .ok ())
         | some (n, e) => ({ st with fs := st.fs.write path (cur ++ t.take n) }, .error (.buildFile, e))
       else (st, .error (.buildFile, .attributeError))            -- `f` is still the path string: no `.write`
+  | .unlink => ({ st with fs := fun q => if q = path then none else st.fs q }, .ok ())
   | .newBuf => ({ st with buffer := some [] }, .ok ())
   | .buildMem =>
     match st.parser, st.buffer with
@@ -151,10 +160,13 @@ def run (sc : List Eff) (o : DumpObj) (fs : FS) (path : Path) : FS × Except Fai
 def runTrace (sc : List Eff) (o : DumpObj) (fs : FS) (path : Path) : List Eff :=
   (exec o path sc { fs := fs }).trace
 
-/-- The safe shape: after the destination has been opened nothing fallible is executed. -/
+/-- The safe shape: once something destructive has happened to the destination nothing fallible is executed any
+more – after the open for writing nothing that runs code of the object; after a removal of the destination not even
+the open (which can fail and would leave the path empty). -/
 def noFallibleAfterOpen : List Eff → Bool
   | [] => true
-  | .openW :: rest => rest.all (fun e => !e.fallible)
+  | .openW :: rest => rest.all (fun e => !e.fallible && e != .unlink)
+  | .unlink :: rest => rest.all (fun e => !e.fallible && e != .openW)
   | _ :: rest => noFallibleAfterOpen rest
 
 /-! ### the standard shape of a dump
